@@ -567,3 +567,13 @@ def r18(rr, repo):
             dec = [c for c in q.calls_in(fn) if U(c.func).endswith('topicmsgs2frames')]
             src = bool(dec) and isinstance(v, ast.Name) and any(isinstance(n, ast.NamedExpr) and U(n.target) == v.id and n.value is dec[0] for n in ast.walk(fn)) or (bool(dec) and v is dec[0])
             rr.ob('the frames returned are the decoding of what the receiver delivered, on the path where it delivered something', ok and src, mod, r, witness=f'{U(v)[:40]} under {str(g)[:120]}', key='recv-frames-from-receiver')
+
+
+@rule('C03.R19', "the set a consumer is handed is the set as it was when process() returned it: the raw image part of a message is a private snapshot or is copied by the send call itself - handing the "
+                 "user's own array to a zero-copy send lets the socket's I/O thread read it after send() has returned, when the filter may already be drawing the next frame into it "
+                 "(shares C02.R12 and C09.R8)")
+def r19(rr, repo):
+    from .c02 import r12 as c02r12
+    from .c09 import r8 as c09r8
+    c02r12(rr, repo)
+    c09r8(rr, repo)
